@@ -174,7 +174,7 @@ def run_real(case, style=None):
         return None, None, 'loading the model: %s: %s' % (type(e).__name__, e)
     rows = G.populate_real(domain, sch, case.get('population') or POPULATION)
     try:
-        result = G.with_timeout(lambda: invoke(domain, rows, case['entry']), 20.0)
+        result = G.with_timeout(lambda: invoke(domain, rows, case['entry']), 8.0)
     except G.Timeout:
         return None, None, 'timeout'
     except Exception as e:
@@ -191,7 +191,7 @@ def check_case(case):
     result, snap, err = run_real(case)
     required = dict(returns=G.plain(ref_result))
     if err == 'timeout':
-        return [('bounded-time', 'no result within 20 s of CPU time', 'terminates (the reference makes at most 60 invocations)')]
+        return [('bounded-time', 'no result within 8 s of CPU time', 'terminates (the reference makes at most 60 invocations)')]
     clause = 'call-result-and-final-population'
     if 'bare-return' in machine.events:
         clause = 'bare-return-delivers-nothing'
@@ -235,6 +235,8 @@ class CGen(G.Gen):
             kinds = dict(prof['kinds'])
             kinds['assign_attr'] = kinds['create'] = 0
             prof['kinds'] = kinds
+        if me is not None and me.pure:
+            prof['prelude_no_create'] = True
         G.Gen.__init__(self, chooser, prof, sch)
         self.sigs, self.me = sigs, me
         self.calls_left = 3
